@@ -11,7 +11,7 @@ with several operators, structurally identical ones under different names includ
 unit-level sum, no Coq Impl).  Kind `ring`: 14-24 units, sparse with FAN-IN, fill on both sides of 0.1.  Kind `seq`: ONE
 template object compiled 2-3 times (vec -> non-vec, non-vec -> vec, in_place True/False, clear=True): every step must be the
 unit-level sum; the last step of each mode also goes through the Coq comparison."""
-import json, os
+import json, os, re
 from fractions import Fraction as Fr
 from core import *
 
@@ -19,6 +19,16 @@ NEEDS = ["Vectorize", "VectorizeProofs", "Corr"]
 GUARDS = ["no_constant_rhs", "no_scalar_fanout"]
 RAW_GUARD = "algebraic_source_independent_of_input"
 XN = ["x", "xb", "xc", "xd"]
+
+def switches():
+    """model switches of proposed repairs: `Definition fixed_Dnn : bool := true.` in Vectorize.v, or (to try a repair on a scratch
+    worktree before it lands) VERIF_C04_FIXED=D32,D21 in the environment"""
+    txt = open(os.path.join(COQ, "theories", "Vectorize.v")).read()
+    sw = {k: bool(re.search(rf"Definition fixed_{k} : bool := true\.", txt)) for k in ("D32", "D21")}
+    for k in os.environ.get("VERIF_C04_FIXED", "").split(","):
+        if k.strip() in sw:
+            sw[k.strip()] = True
+    return sw
 
 # ---------------------------------------------------------------------------------------------- strings
 def num(c):
@@ -377,13 +387,14 @@ def py_guards(case):
     for ci, _ in nodes:
         cnt[ci] = cnt.get(ci, 0) + 1
     bad = set()
-    if any(cnt[ci] >= 2 and _const_rhs(classes[ci]["f"]) for ci in cnt):
+    sw = switches()
+    if not sw["D21"] and any(cnt[ci] >= 2 and _const_rhs(classes[ci]["f"]) for ci in cnt):
         bad.add("no_constant_rhs")
     pairs = {}
     for s_, t, w, sv in edges:
         pairs.setdefault((cls(s_), cls(t), sv), []).append(t)
     for (sc, tc, _sv), ts in pairs.items():
-        if cnt[sc] == 1 and len(ts) >= 10 and len(set(ts)) == len(ts):
+        if not sw["D32"] and cnt[sc] == 1 and len(ts) >= 10 and len(set(ts)) == len(ts):
             bad.add("no_scalar_fanout")
     return bad
 
@@ -587,17 +598,35 @@ Definition obs := list (option (list Qc)).
 Definition vcase := (circuit * list (list Qc) * obs * obs)%type.
 Fixpoint all2 {A B} (f : A -> B -> bool) (a : list A) (b : list B) : bool :=
   match a, b with [], [] => true | x :: a', y :: b' => f x y && all2 f a' b' | _, _ => false end.
+Definition f32 : bool := @F32@.
+Definition f21 : bool := @F21@.
+Definition implX := impl_gen input_of true f32 f21.       (* = Vectorize.impl unless a repair is being tried (VERIF_C04_FIXED) *)
+Definition no_constant_rhsX (c : circuit) := f21 || no_constant_rhs c.
+Definition no_scalar_fanoutX (c : circuit) := f32 || no_scalar_fanout c.
+Fixpoint euler_implX (vec : bool) (c : circuit) (h : Qc) (st : list Qc) (n : nat) : option (list (list Qc)) :=
+  match n with
+  | O => Some []
+  | S n' => match implX vec c st with
+            | None => None
+            | Some d => let st' := euler_step h st d in
+                        match euler_implX vec c h st' n' with Some r => Some (st' :: r) | None => None end
+            end
+  end.
 Definition okI (p : vcase) := let '(c, sts, ov, on) := p in
-  all2 (fun st o => oq_eqb (impl true c st) o) sts ov && all2 (fun st o => oq_eqb (impl false c st) o) sts on.
+  all2 (fun st o => oq_eqb (implX true c st) o) sts ov && all2 (fun st o => oq_eqb (implX false c st) o) sts on.
 Definition okS (p : vcase) := let '(c, sts, ov, on) := p in
   all2 (fun st o => oq_eqb (Some (spec c st)) o) sts ov && all2 (fun st o => oq_eqb (Some (spec c st)) o) sts on.
 Definition cof (p : vcase) : circuit := fst (fst (fst p)).
 Definition tcase := (circuit * list Qc * Qc * nat * option (list (list Qc)) * option (list (list Qc)))%type.
 Definition tokI (p : tcase) := let '(c, st, h, n, ov, on) := p in
-  oqq_eqb (euler_impl true c h st n) ov && oqq_eqb (euler_impl false c h st n) on.
+  oqq_eqb (euler_implX true c h st n) ov && oqq_eqb (euler_implX false c h st n) on.
 Definition tokS (p : tcase) := let '(c, st, h, n, ov, on) := p in
   oqq_eqb (Some (euler_spec c h st n)) ov && oqq_eqb (Some (euler_spec c h st n)) on.
 """
+
+def header():
+    sw = switches()
+    return HEADER.replace("@F32@", "true" if sw["D32"] else "fixed_D32").replace("@F21@", "true" if sw["D21"] else "fixed_D21")
 
 def coq_poly(p, nv):
     return clist([f"Mono {cq(m[0])} {m[1]} {m[2]} {m[3] if nv == 3 else 0}" for m in p])
@@ -639,12 +668,12 @@ def model_compare(ctx, cases, outs, tag):
         body += "Eval vm_compute in (mismatches okI cases).\nEval vm_compute in (mismatches okS cases).\n"
         body += "Eval vm_compute in (mismatches (fun p => wf (cof p)) cases).\n"
         for g in GUARDS:
-            body += f"Eval vm_compute in (mismatches (fun p => {g} (cof p)) cases).\n"
+            body += f"Eval vm_compute in (mismatches (fun p => {g}X (cof p)) cases).\n"
         tidx = [i for i, c in enumerate(cs) if c.get("traj")]
         if tidx:
             body += "Definition tcases : list tcase := " + clist([coq_tcase(cs[i], os_[i]) for i in tidx]) + ".\n"
             body += "Eval vm_compute in (mismatches tokI tcases).\nEval vm_compute in (mismatches tokS tcases).\n"
-        ls = parse_nat_lists(coq_eval(ctx, f"c04_{tag}_{s}", HEADER, body))
+        ls = parse_nat_lists(coq_eval(ctx, f"c04_{tag}_{s}", header(), body))
         assert len(ls) == 3 + len(GUARDS) + (2 if tidx else 0), ls
         badI |= {s + i for i in ls[0]}; badS |= {s + i for i in ls[1]}
         wff += [s + i for i in ls[2]]
@@ -657,10 +686,10 @@ def model_compare(ctx, cases, outs, tag):
 
 def model_outputs(ctx, case, r, tag):
     body = (f"Definition c := {coq_circuit(case)}.\nDefinition st := {coq_row(case['states'][0])}.\n"
-            "Eval vm_compute in (spec c st).\nEval vm_compute in (impl true c st).\nEval vm_compute in (impl false c st).\n"
-            "Eval vm_compute in (no_constant_rhs c, no_scalar_fanout c).\n")
+            "Eval vm_compute in (spec c st).\nEval vm_compute in (implX true c st).\nEval vm_compute in (implX false c st).\n"
+            "Eval vm_compute in (no_constant_rhsX c, no_scalar_fanoutX c).\n")
     try:
-        return coq_eval(ctx, f"c04_show_{tag}", HEADER, body)[:6000]
+        return coq_eval(ctx, f"c04_show_{tag}", header(), body)[:6000]
     except Exception as e:
         return f"(model evaluation failed: {e})"
 
